@@ -17,7 +17,7 @@ def strip_reply(op, keep):
     return {k: v for k, v in op.items() if k in keep}
 
 
-def gen_edge_cover(ctx, module, cfg, arg_filter, to_exec_op, run_cfg, timeout=300, max_len=300):
+def gen_edge_cover(ctx, module, cfg, arg_filter, to_exec_op, run_cfg, timeout=300, max_len=300, max_ops=None):
     """Run the generation config, build the edge cover, return behaviours (list of dicts)."""
     res = run_tlc(ctx, module, cfg, workers=1, timeout=timeout, name="gen_" + cfg)
     if not res["ok"]:
@@ -27,14 +27,15 @@ def gen_edge_cover(ctx, module, cfg, arg_filter, to_exec_op, run_cfg, timeout=30
     if init is None:
         raise ToolError("generation run %s/%s printed no edges" % (module, cfg))
     nedges = sum(len(v) for v in graph.values())
-    walks = graphwalk.edge_cover(init, graph, max_len=max_len)
+    walks, uncovered = graphwalk.edge_cover(init, graph, max_len=max_len, max_ops=max_ops)
     behaviours = []
     for i, w in enumerate(walks):
         behaviours.append({"run": i, "cfg": run_cfg, "ops": [to_exec_op(a) for a in w]})
     nops = sum(len(w) for w in walks)
-    ctx.stage("gen:" + cfg, model_states=len(graph), model_edges=nedges, edge_lines=nlines,
+    ctx.stage("gen:" + cfg, model_states=len(graph), model_edges=nedges, covered=nedges - uncovered,
               walks=len(walks), ops=nops, wall_s=res["wall_s"])
-    return behaviours, {"model_states": len(graph), "model_edges": nedges, "walks": len(walks), "ops": nops}
+    return behaviours, {"model_states": len(graph), "model_edges": nedges, "covered": nedges - uncovered,
+                        "walks": len(walks), "ops": nops}
 
 
 def write_behaviours(path, behaviours):
